@@ -9,11 +9,13 @@ package main
 // Tree B (a term change, params.TermDuration=5, InterimDuration=2; snapshot height 5, the new
 // term signs from height 8):
 //   g - s1(d0: funding) - s2(d1: c0..c3 register, 50000 votes each) - s3(d2: v0 votes d1)
-//     - s4(d0: v1 votes d2; u0 pays u1) - s5(d1: SNAPSHOT) - s6(d2) - s7(d1, skipping d0's slot)
-//     - s8(d1 = rank 0 of the new term: first block of the new term) ...
-// Registered candidates at s4 (= the parent of the snapshot block), by votes: d1 (~150000),
-// c0..c3 (50000 each: a four-way tie, broken by address), d2 (~10000), d0 (0). Top 3 = d1 and the
-// two smallest addresses among c0..c3 ("cs0", "cs1"); "cs2", "cs3" lose the tie; d0, d2 fall out.
+//     - s4(d0: v1 votes d2; v3 votes cs2; u0 pays u1) - s5(d1: SNAPSHOT) - s6(d2)
+//     - s7(d1, skipping d0's slot) - s8(d1 = rank 0 of the new term: first block of the new term) ...
+// "cs0".."cs3" are c0..c3 in ADDRESS order (the tie-break order). Registered candidates by votes
+//   at s3 (the GRANDparent of the snapshot block): d1 ~150000 | cs0 cs1 cs2 cs3 50000 each | d0 d2 0
+//   at s4 (the parent of the snapshot block):      d1 ~150000, cs2 ~60000, cs0 50000 | cs1 50000, cs3 50000, d2 ~10000, d0 0
+// so the elected list is [d1, cs2, cs0]: it differs from the list one block earlier ([d1, cs0, cs1]),
+// the last seat is decided by a three-way tie on the address, and two old deputies fall out.
 
 import (
 	"bytes"
@@ -77,7 +79,7 @@ type tree struct {
 	txT    *types.Transaction // in a1
 	txNew  *types.Transaction // fresh valid tx for candidate blocks
 	txNew2 *types.Transaction // another fresh valid tx (by user 2)
-	txVote *types.Transaction // v2 votes for cs1 (rank 2 of the coming term): changes a list member's votes
+	txVote *types.Transaction // v2 votes for cs0 (rank 2 of the coming term): changes a list member's votes
 	bases  map[string]*types.Block
 }
 
@@ -132,7 +134,7 @@ func buildTree() *tree {
 	for i := 0; i < 4; i++ {
 		fundB = append(fundB, pay(node.K(fmt.Sprintf("c%d", i)), 6000000, 10+i))
 	}
-	fundB = append(fundB, pay(node.K("v0"), 30000000, 20), pay(node.K("v1"), 2000000, 21), pay(node.K("v2"), 10000000, 22))
+	fundB = append(fundB, pay(node.K("v0"), 30000000, 20), pay(node.K("v1"), 2000000, 21), pay(node.K("v2"), 10000000, 22), pay(node.K("v3"), 2000000, 23))
 	mk("s1", "g", "d0", fundB)
 	var regs types.Transactions
 	for i := 0; i < 4; i++ {
@@ -141,11 +143,16 @@ func buildTree() *tree {
 	}
 	mk("s2", "s1", "d1", regs)
 	mk("s3", "s2", "d2", types.Transactions{node.Vote(node.K("v0"), node.Deputy(1).Addr, exp)})
-	mk("s4", "s3", "d0", types.Transactions{node.Vote(node.K("v1"), node.Deputy(2).Addr, exp), node.Transfer(node.User(0), node.User(1).Addr, node.Lemo(1), exp+1)})
-	t.txVote = node.Vote(node.K("v2"), cs(1).Addr, exp)
+	mk("s4", "s3", "d0", types.Transactions{node.Vote(node.K("v1"), node.Deputy(2).Addr, exp), node.Vote(node.K("v3"), cs(2).Addr, exp), node.Transfer(node.User(0), node.User(1).Addr, node.Lemo(1), exp+1)})
+	t.txVote = node.Vote(node.K("v2"), cs(0).Addr, exp) // cs0 is ranked 2 at s4: 50000 -> ~100000 > cs2's ~60000
 	mk("s5", "s4", "d1", nil)
-	if len(t.blocks["s5"].DeputyNodes) != nDep {
-		panic("harness: s5 is not a snapshot block")
+	// the tables are written for the elected list [d1, cs2, cs0] — by the REFERENCE. What the factory
+	// (the engine's ranking) wrote into s5 is judged by the oracle like every other block, not here.
+	if l := refTop(t.blocks["s4"].Hash()); len(l) != nDep || l[0].Addr != node.Deputy(1).Addr || l[1].Addr != cs(2).Addr || l[2].Addr != cs(0).Addr {
+		panic(fmt.Sprintf("harness: the reference does not elect [d1, cs2, cs0] at s4: %v", l))
+	}
+	if len(t.blocks["s5"].DeputyNodes) == 0 {
+		panic("harness: s5 carries no deputy list")
 	}
 	// the factory's own deputy manager learns the new term the way a node does when s5 gets stable
 	f.DM.SaveSnapshot(termDur, t.blocks["s5"].DeputyNodes)
@@ -267,12 +274,12 @@ var candidates = map[string][]candidate{
 	"forks":        {{"tx-on-short-fork", "b1", "d0", oneTx, false}, {"empty-on-head", "a2", "d0", nil, false}},
 	"after-stable": {{"tx-on-head", "a2", "d0", oneTx, false}},
 	"pruned-fork":  {{"tx-on-pruned-fork", "b1", "d0", oneTx, false}, {"tx-on-stable-head", "a1", "d2", oneTx, false}},
-	"pre-snapshot": {{"snapshot-empty", "s4", "d1", nil, false}, {"snapshot-tx", "s4", "d1", oneTx, false},
+	"pre-snapshot": {{"snapshot-empty", "s4", "d1", nil, false}, {"snapshot-tx", "s4", "d1", oneTx, true},
 		{"snapshot-with-vote-for-rank2", "s4", "d1", voteTx, true}},
 	"post-snapshot":                    {{"after-snapshot-tx", "s5", "d2", oneTx, false}},
 	"interim-end(snapshot stable)":     {{"first-of-new-term", "s7", "d1", oneTx, false}},
 	"interim-end(snapshot not stable)": {{"first-of-new-term(term not loaded)", "s7", "d1", oneTx, false}},
-	"new-term":                         {{"second-of-new-term", "s8", "cs0", oneTx, false}},
+	"new-term":                         {{"second-of-new-term", "s8", "cs2", oneTx, false}},
 }
 
 func isSnapshotHeight(h uint32) bool { return h%termDur == 0 }
